@@ -127,7 +127,12 @@ class StlAstParserVisitor(LtlAstParserVisitor, StlParserVisitor):
 
 
     def visitIntervalTimeLiteral(self, ctx):
-        time_bound = Fraction(Decimal(ctx.literal().getText()))
+        text = ctx.literal().getText()
+        try:
+            time_bound = Fraction(Decimal(text))
+        except ArithmeticError:
+            # hexadecimal, binary or underscored integer literal
+            time_bound = Fraction(int(text.replace('_', ''), 0))
         if ctx.unit() is None:
             unit = ''
         else:
